@@ -11,7 +11,7 @@ ASSUMPTIONS = [
 
 
 def units(tier, seed):
-    us = cases.wf_units(tier, seed, with_streams=False)
+    us = cases.wf_units(tier, seed, with_streams=False, struct_k=1, small_alts=1500 if tier == "quick" else 20000)
     for u in us:
         u["seed"] = seed
     # every session / encryption configuration of every frame as a root of its own (<= 1 deviation around it, so that
